@@ -9,10 +9,12 @@ import (
 	"mvdan.cc/sh/v3/syntax"
 )
 
-// verifCancelCtx becomes cancelled at an arbitrary poll: the cancellation
-// instant is a symbolic variable, counted in polls of Err.
+// verifCancelCtx becomes cancelled at an arbitrary instant: the clock is the
+// engine's step counter (wall time natively) and the instant is a symbolic
+// choice. Code that never polls the context therefore keeps running.
 type verifCancelCtx struct {
-	polls, after int
+	polls, pollsAfter int
+	cancelAt          int
 }
 
 func (c *verifCancelCtx) Deadline() (time.Time, bool) { return time.Time{}, false }
@@ -20,7 +22,8 @@ func (c *verifCancelCtx) Done() <-chan struct{}       { return nil }
 func (c *verifCancelCtx) Value(key any) any           { return nil }
 func (c *verifCancelCtx) Err() error {
 	c.polls++
-	if c.polls > c.after {
+	if verifSteps() >= c.cancelAt {
+		c.pollsAfter++
 		return context.Canceled
 	}
 	return nil
@@ -40,6 +43,18 @@ var verifLoops = [...]string{
 	`trap ':' ERR; while :; do false; done`,
 	`while :; do eval ':'; done`,
 	`set -- a; while [ $# -gt 0 ]; do set -- a; done`,
+	// loops inside trap bodies, functions called from traps, subshells and substitutions
+	`trap 'while true; do true; done' ERR; false; true`,
+	`trap 'while true; do true; done' EXIT; false`,
+	`g() { while :; do :; done; }; trap g ERR; false`,
+	`( while :; do :; done )`,
+	`x=$(while :; do :; done)`,
+	`while :; do :; done | while :; do :; done`,
+	`{ while :; do :; done; } && :`,
+	`! while :; do :; done`,
+	`while :; do :; done &` + "\n" + `wait`,
+	`eval 'while :; do :; done'`,
+	`select i in a; do :; done <<< "1"`,
 }
 
 // Verif_c31_cancel: once the context reports cancellation, Run returns an
@@ -49,16 +64,17 @@ func Verif_c31_cancel() {
 	if k < 0 {
 		k = verifChoice("prog", len(verifLoops))
 	}
-	after := verifChoice("cancelAfter", verifParam("maxpolls"))
 	f, err := syntax.NewParser().Parse(strings.NewReader(verifLoops[k]), "")
 	verifAssume(err == nil)
 	var out, errb bytes.Buffer
 	r := verifRunner(&out, &errb)
-	ctx := &verifCancelCtx{after: after}
+	// cancellation at one of maxpolls instants, 700 steps apart
+	ctx := &verifCancelCtx{cancelAt: verifSteps() + 700*verifChoice("cancelAfter", verifParam("maxpolls"))}
+	verifBudgetFails("Run did not return within the step bound after the context was cancelled")
 	var rerr error
 	ok := verifNoPanic(func() { rerr = r.Run(ctx, f) })
 	verifAssert(ok, "Run panicked after cancellation")
 	verifAssert(rerr != nil, "Run returned without an error although the context was cancelled")
-	verifAssert(ctx.polls-after <= 64, "Run kept polling long after the context was cancelled")
+	verifAssert(ctx.pollsAfter <= 64, "Run kept polling long after the context was cancelled")
 	verifReach("end")
 }
